@@ -152,12 +152,18 @@ fn mem_cfg(rc: &RunCfg) -> Cfg
 /// invocation (a ruler invocation is an action of its own).
 pub fn run_build(fs: &Fs, rc: &RunCfg, goal: &Option<String>) -> RunResult
 {
+    run_build_in(fs, rc, goal, RULER_DIR)
+}
+
+/// `run_build` with the ruler directory given explicitly (the `--directory` option)
+pub fn run_build_in(fs: &Fs, rc: &RunCfg, goal: &Option<String>, ruler_dir: &str) -> RunResult
+{
     let _w = crate::watch::item(|| (format!("build({}) on a state reached by the harness (no replayable history recorded at this call site)", goal.clone().unwrap_or_default()), serde_json::json!({"engine": "unreplayable"})));
     let mut fs = fs.clone();
     fs.tick();
     let sys = MemSystem::new(fs, mem_cfg(rc));
     let mut printer = RecPrinter::default();
-    let params = BuildParams::from_all(RULER_DIR.to_string(), vec![RULES_FILE.to_string()], None, goal.clone());
+    let params = BuildParams::from_all(ruler_dir.to_string(), vec![RULES_FILE.to_string()], None, goal.clone());
     let r = build::build(sys.clone(), &mut printer, params);
     observe_point(rc);
     let verdict = summarize(&r);
@@ -184,11 +190,16 @@ fn observe_point(rc: &RunCfg)
 
 pub fn run_clean(fs: &Fs, rc: &RunCfg, goal: &Option<String>) -> RunResult
 {
+    run_clean_in(fs, rc, goal, RULER_DIR)
+}
+
+pub fn run_clean_in(fs: &Fs, rc: &RunCfg, goal: &Option<String>, ruler_dir: &str) -> RunResult
+{
     let _w = crate::watch::item(|| (format!("clean({}) on a state reached by the harness (no replayable history recorded at this call site)", goal.clone().unwrap_or_default()), serde_json::json!({"engine": "unreplayable"})));
     let mut fs = fs.clone();
     fs.tick();
     let sys = MemSystem::new(fs, mem_cfg(rc));
-    let r = build::clean(sys.clone(), RULER_DIR, vec![RULES_FILE.to_string()], goal.clone());
+    let r = build::clean(sys.clone(), ruler_dir, vec![RULES_FILE.to_string()], goal.clone());
     observe_point(rc);
     let verdict = summarize(&r);
     drop(r);
